@@ -57,6 +57,29 @@ FAM = {
     "dict_display": lambda n: "d = {" + ",".join("%d:%d" % (i, i) for i in range(n)) + "}\nprint(len(d))\n",
     "unary_chain": lambda n: "print(" + "-" * n + "1)\n",
 }
+# a long chain in every *context* the expression rewriter treats specially (each has its own pending class / scan)
+_CH = lambda n: "+".join(["x"] * n)
+_AT = lambda n: "a" + ".a" * n
+CTX = {
+    "ctx_lambda_body": lambda n: "x=1\nf = lambda: " + _CH(n) + "\nprint(f())\n",
+    "ctx_lambda_default": lambda n: "x=1\nf = lambda q=" + _CH(n) + ": q\nprint(f())\n",
+    "ctx_def_default": lambda n: "x=1\ndef f(q=" + _CH(n) + ", *, k=" + _CH(n) + "):\n    return q + k\nprint(f())\n",
+    "ctx_return": lambda n: "x=1\ndef f():\n    return " + _CH(n) + "\nprint(f())\n",
+    "ctx_comprehension": lambda n: "x=1\nprint([" + _CH(n) + " for i in range(2) if " + _CH(n) + "])\n",
+    "ctx_genexp_iter": lambda n: "x=1\nprint(sum(i for i in [" + _CH(n) + "]))\n",
+    "ctx_fstring_field": lambda n: "x=1\nprint(f'{" + _CH(n) + "}')\n",
+    "ctx_class_body": lambda n: "x=1\nclass K:\n    y = " + _CH(n) + "\n    def m(self, q=" + _CH(n) + "):\n        return q\nprint(K.y, K().m())\n",
+    "ctx_decorator_arg": lambda n: "x=1\ndef d(v):\n    return lambda fn: fn\n@d(" + _CH(n) + ")\ndef f():\n    return 1\nprint(f())\n",
+    "ctx_if_while_test": lambda n: "x=1\nif " + _CH(n) + ":\n    print('t')\nc=[0]\nwhile c[0] < 1 and " + _CH(n) + ":\n    c[0] += 1\nprint(c)\n",
+    "ctx_subscript_store_index": lambda n: "x=1\nd={}\nd[" + _CH(n) + "] = " + _CH(n) + "\nd[" + _CH(n) + "] += " + _CH(n) + "\nprint(len(d))\n",
+    "ctx_walrus_value": lambda n: "x=1\nprint((w := " + _CH(n) + "), w)\n",
+    "ctx_call_kwarg": lambda n: "x=1\ndef f(*a, **k):\n    return len(a) + len(k)\nprint(f(" + _CH(n) + ", *[" + _CH(n) + "], k=" + _CH(n) + "))\n",
+    "ctx_nonlocal_attr_chain": lambda n: "class A:\n    pass\ndef o():\n    a = A()\n    a.a = a\n    def i():\n        return " + _AT(n) + " is a\n    return i()\nprint(o())\n",
+    "ctx_lambda_in_class_attr_chain": lambda n: "class A:\n    pass\na = A()\na.a = a\nclass K:\n    f = lambda self: " + _AT(n) + " is a\nprint(K().f())\n",
+    "ctx_for_iter_and_target": lambda n: "x=1\nfor i in [" + _CH(n) + "]:\n    print(i)\n",
+    "ctx_import_free_dict_value": lambda n: "x=1\nd = {'k': " + _CH(n) + ", **{'j': " + _CH(n) + "}}\nprint(sorted(d))\n",
+}
+FAM.update(CTX)
 CLEAN = ("oneliner", "list", "if_expr")
 QUICK_CFGS = [envs.DEFAULT_CFG, CLEAN, ("oneliner", "chain_call", "if_expr"), ("ast.unparse", "list", "if_expr"),
               ("oneliner", "list", "short_circuit"), ("ast.unparse", "chain_call", "short_circuit")]
